@@ -17,9 +17,12 @@
 (*                                                                         *)
 (* Characters are code points (ASCII here), strings are sequences of them. *)
 (* This module has no variables: QueryStringLex.tla runs the lexer as a    *)
-(* state machine (one action per input character) and checks its           *)
-(* invariants; QueryStringCases.tla enumerates inputs and computes the     *)
-(* expected outcome that the harness replays into the real parser.         *)
+(* state machine (one action per input character) over every input up to   *)
+(* a length bound, checks its invariants and computes the expected outcome *)
+(* of every input; QueryStringSentences.tla does so for inputs generated   *)
+(* from the documented grammar; trace/JudgeQueryString.tla judges what the *)
+(* real parser made of random longer inputs.  The harness replays every    *)
+(* enumerated input into the real parser.                                  *)
 (***************************************************************************)
 EXTENDS Naturals, Sequences, FiniteSets, TLC
 
@@ -133,7 +136,7 @@ LexAll(w) == FeedEOF(LexRun(w))                  \* ... and the end of input
 
 \* ------------------------------------------------- strconv.ParseFloat
 \* over strings of digits, '.', '+', '-' (anything else makes it invalid; the
-\* inputs generated here contain no e E x p _ i n f, see QueryStringCases)
+\* inputs generated here contain no e E x p _ i n f)
 DigitsOnly(s) == \A i \in 1..Len(s) : IsDigit(s[i])
 ValidUnsigned(s) ==
   LET dots == {i \in 1..Len(s) : s[i] = DOT}
